@@ -278,7 +278,7 @@ def run_clones(ctx, binary, unis, cases):
 
 def run(ctx):
     binary = ctx.build("vh-c31")
-    shapes = [1, 2, 3, 4, 5] if ctx.thorough else [4, 2]
+    shapes = [1, 2, 3, 4, 5] if ctx.thorough else [4]
     small = "FALSE" if ctx.thorough else "TRUE"
     ctx.tlc_mc("proto", "Fetch_Gen", cfg="Fetch_MC.cfg", consts={"Shape": 4, "Small": "TRUE", "Bug_FFByTimeCutoff": "TRUE"}, workers=6,
                expect_violation="FastForwardsTaken", coverage=False)
@@ -294,7 +294,7 @@ def run(ctx):
         rest = [c for c in cs if not interesting(c)]
         ctx.rng.shuffle(inter)
         ctx.rng.shuffle(rest)
-        n = 220 if ctx.thorough else 28
+        n = 220 if ctx.thorough else 44
         cases += inter[: n * 3 // 4] + rest[: n // 4]
         unis[s] = Universe(ctx, s)
     ctx.cov["exhaustive"] = False
